@@ -7,12 +7,12 @@ import common as C
 
 PID = "C04"
 DRIVER = [("C04", "TfPwaV.Gen.SpinlessF", "SpinlessF.handle")]
-LEAN_TARGETS = ["TfPwaV.Props.C04", "TfPwaV.Gen.SpinlessF"]
-PROP_MODULES = ["TfPwaV.Props.C04"]
-ALL_MODULES = ["TfPwaV.Props.C04", "TfPwaV.Proofs.Spinless", "TfPwaV.Props.C15", "TfPwaV.Proofs.LineShape", "TfPwaV.Proofs.ScalarR"]
+LEAN_TARGETS = ["TfPwaV.Props.C04", "TfPwaV.Props.C04b", "TfPwaV.Gen.SpinlessF"]
+PROP_MODULES = ["TfPwaV.Props.C04", "TfPwaV.Props.C04b"]
+ALL_MODULES = ["TfPwaV.Props.C04", "TfPwaV.Props.C04b", "TfPwaV.Proofs.AngleBeta", "TfPwaV.Proofs.Angle", "TfPwaV.Proofs.Cascade", "TfPwaV.Proofs.CascadeAngle", "TfPwaV.Proofs.Kin", "TfPwaV.Proofs.Spinless", "TfPwaV.Props.C15", "TfPwaV.Proofs.LineShape", "TfPwaV.Proofs.ScalarR"]
 ASSUMPTIONS = [
     "theorems are over the reals for resonance spin J <= 4 (the bound of the property); the Float instance of the same template text is what is compared with the implementation, rel. tol 1e-9 of the scale (sum_k |A_k|)^2; events with max(M^2/q^2, M^2/p^2) > 1e5 (a break-up momentum below 3e-3 of the parent mass) are counted as ill-conditioned and skipped",
-    "the helicity angle of the implementation (cal_angle: boosts, atan2, then sin/cos of beta/2) is NOT proved equal to the boost-defined cos(theta) of the model; that equality is validated on every event (direct comparison of cos(beta) and of the density) and independently by a numpy evaluation from Lorentz invariants only",
+    "the helicity angle: Props/C04b.helicity_angle_is_boost_angle proves, for ALL final four-momenta outside cross_unit's degenerate fallback (|z x w| >= 1e-14, |z| >= 1e-14), that the polar angle which the Lean model of cal_angle.py (CascadeR.calAngle: infer_momentum, cal_chain_boost, cal_helicity_angle / angle_zx_z_getx, the model C11 ties to the implementation) returns for R -> a b has cos(beta) = the boost-defined cos(theta) of the closed form (SpinlessR.chainKin); that the IMPLEMENTATION's beta equals the model's is the C11 cascade correspondence plus, here, a direct comparison of cos(beta) and of the density on every event, and independently a numpy evaluation from Lorentz invariants only",
     "exact Clebsch-Gordan values / small-d weights are those of Model/Wigner.lean, tied to tf_pwa.cg / tf_pwa.dfun by the C12 check; here additionally HelicityDecay.get_cg_matrix() of every generated decay is compared with the model entry by entry",
     "the numpy reference (search) is restricted to resonances whose nominal mass lies inside the kinematically allowed interval (m_a+m_b, M-m_c) where the textbook closed form is defined; nominal masses outside it (q0^2 < 0, guard branches of Bprime_q2 / Gamma) are covered by the correspondence with the code-shaped model only",
     "line shape, barrier factors: theorems of C15 about templates/LineShape.lean.in are reused (BWR_eq_spec, BprimeQ2_eq_Bprime)",
@@ -557,7 +557,7 @@ def replay(ctx, payload):
 
 
 MANIFEST = {
-    "text": "Lean theorems over the reals, for every resonance spin J <= 4 and all real masses, widths, couplings, momenta and angles: the chain formula of tf_pwa.amp.core specialised to spin-0 external particles (LS->helicity factor sqrt((2l+1)/(2J+1)) CG CG with the exact Clebsch-Gordan values of C12, D^{0*} D^{J*} contraction over the helicity of the resonance with the zero padding of Dfun_delta_v2, exact small-d weights) equals the closed form c (-1)^J p^J B_J(p) q^J B_J(q) BW(m) P_J(cos theta) (spinless_closed_form); the (-1)^J and the absence of a sqrt(2J+1) are derived from the exact CG values (ls_factor_parent, ls_factor_resonance), d^J_00(theta) = P_J(cos theta) as a polynomial identity in sin/cos of theta/2 (d00_legendre), Legendre parity (daughter order), and with the C15 theorems the closed form is written with the documented 1/(m0^2-m^2-i m0 Gamma(m)). The same template text instantiated at Float is compared with ConfigLoader(dict).get_amplitude()(data) on seeded configurations and events.",
-    "note": "Model = templates/Spinless.lean.in (closed form from the three four-momenta by explicit boosts + code-shaped helicity formula) on top of templates/Kin, templates/LineShape, Model/Wigner. Tie = differential run: density, get_cg_matrix entries, masses / |q|2 / cos(beta) seen by the implementation vs the Float model (rel. 1e-9 of (sum|A_k|)^2, events with a break-up momentum < 3e-3 M skipped and counted). Search = independent numpy evaluation of the closed form from Lorentz invariants only (no boosts, explicit Legendre polynomials) vs the implementation. NOT proved: that the helicity angle computed by cal_angle equals the boost-defined angle (validated on every event), Float rounding.",
+    "text": "Lean theorems over the reals, for every resonance spin J <= 4 and all real masses, widths, couplings, momenta and angles: the chain formula of tf_pwa.amp.core specialised to spin-0 external particles (LS->helicity factor sqrt((2l+1)/(2J+1)) CG CG with the exact Clebsch-Gordan values of C12, D^{0*} D^{J*} contraction over the helicity of the resonance with the zero padding of Dfun_delta_v2, exact small-d weights) equals the closed form c (-1)^J p^J B_J(p) q^J B_J(q) BW(m) P_J(cos theta) (spinless_closed_form); the (-1)^J and the absence of a sqrt(2J+1) are derived from the exact CG values (ls_factor_parent, ls_factor_resonance), d^J_00(theta) = P_J(cos theta) as a polynomial identity in sin/cos of theta/2 (d00_legendre), Legendre parity (daughter order), and with the C15 theorems the closed form is written with the documented 1/(m0^2-m^2-i m0 Gamma(m)). The polar helicity angle of the vertex R -> a b as the Lean model of cal_angle.py computes it (infer_momentum, cal_chain_boost, angle_zx_z_getx with cross_unit) satisfies cos(beta) = the boost-defined cos(theta) of the closed form for ALL final four-momenta outside cross_unit's degenerate fallback (helicity_angle_is_boost_angle, Props/C04b). The same template text instantiated at Float is compared with ConfigLoader(dict).get_amplitude()(data) on seeded configurations and events.",
+    "note": "Model = templates/Spinless.lean.in (closed form from the three four-momenta by explicit boosts + code-shaped helicity formula) on top of templates/Kin, templates/LineShape, Model/Wigner. Tie = differential run: density, get_cg_matrix entries, masses / |q|2 / cos(beta) seen by the implementation vs the Float model (rel. 1e-9 of (sum|A_k|)^2, events with a break-up momentum < 3e-3 M skipped and counted). Search = independent numpy evaluation of the closed form from Lorentz invariants only (no boosts, explicit Legendre polynomials) vs the implementation. The helicity angle of the cal_angle MODEL (templates/Cascade, tied to the implementation by C11) equals the boost-defined angle by theorem (C04b); that the implementation's own beta equals it is validated on every event. NOT verified: Float rounding.",
     "technique": "Lean 4 proof over the reals (exact kernel-evaluated Clebsch-Gordan / Wigner-d tables + algebra) of one template instantiated at Float for differential correspondence with the implementation; independent numpy oracle",
 }
